@@ -38,6 +38,10 @@ type C15Client struct {
 	LostReply bool `json:"lost_reply,omitempty"`
 	// CDN: the client uses the WebSocket transport through the CDN edge
 	CDN bool `json:"cdn,omitempty"`
+	// Join: Session is the id of its user's pinned session: one more connection
+	// for a session that exists - or existed, if the user lost its authorisation
+	// and a periodic upload (once a minute) has terminated it since
+	Join bool `json:"join,omitempty"`
 }
 
 type C15Scenario struct {
@@ -340,6 +344,26 @@ func runC15(c *Ctx, scAny any) {
 		usr := sc.Users[cl.User]
 		// expired in the meantime? (expiry within the run's few virtual seconds)
 		stillValid := float64(usr.ExpiryS) > c.W.Elapsed().Seconds()+1
+		if cl.Join && pinned[cl.User] != nil {
+			// The pinned session has been idle since it was set up. A user that lost its
+			// authorisation (expiry passed, credit withdrawn) is still reported by the
+			// next periodic upload, 60 s after the server started, and terminated on the
+			// manager's answer: a later connection naming the old session id finds no
+			// session to join and is judged like a new one. Before that upload, joining
+			// the standing session is the documented behaviour (records are cached).
+			lostAt := float64(-1)
+			if usr.AdminZero != 0 {
+				lostAt = 1
+			} else if authState(usr) == -1 {
+				lostAt = float64(usr.ExpiryS)
+			}
+			if lostAt >= 0 && lostAt+2 < 60 && sc.BurstDelayS >= 65 && r.err == nil {
+				c.Fail("admission", "joined-terminated-user", "client %d: user %d lost its authorisation %v s after the server started (expiry %+d s, credit withdrawn: %v), the upload round at 60 s has reported it, yet a connection naming its old session id was admitted at %d s", i, cl.User, lostAt, usr.ExpiryS, usr.AdminZero != 0, sc.BurstDelayS)
+				return
+			}
+			c.Probe("join_pinned")
+			continue
+		}
 		if authState(usr) == 0 {
 			continue
 		}
